@@ -13,10 +13,14 @@ Lemma land_mask32_lt x : N.land x mask32 < two32.
 Proof.
   change mask32 with (N.ones 32). rewrite N.land_ones. apply N.mod_lt. discriminate.
 Qed.
+Lemma non_zero_lt x : x < two32 -> non_zero x < two32.
+Proof. unfold non_zero, nonzero_hash. destruct (x =? 0); [reflexivity | auto]. Qed.
+Lemma non_zero_neq x : non_zero x <> 0.
+Proof. unfold non_zero, nonzero_hash. destruct (N.eqb_spec x 0); [discriminate | assumption]. Qed.
 Lemma handle_of_bytes_lt bs : handle_of_bytes bs < two32.
-Proof. unfold handle_of_bytes, fnv_bytes. apply land_mask32_lt. Qed.
+Proof. unfold handle_of_bytes, fnv_bytes. apply non_zero_lt, land_mask32_lt. Qed.
 Lemma hash_u64_lt k m : hash_u64 k m < two32.
-Proof. unfold hash_u64. apply N.mod_lt. discriminate. Qed.
+Proof. unfold hash_u64. apply non_zero_lt, N.mod_lt. discriminate. Qed.
 Lemma handle_from_u64_lt k : handle_from_u64 k < two32.
 Proof. unfold handle_from_u64. apply hash_u64_lt. Qed.
 Lemma handle_from_u32_lt k : handle_from_u32 k < two32.
@@ -33,7 +37,21 @@ Proof.
   destruct (N.max_spec (N.log2 a) (N.log2 b)) as [[_ Em]|[_ Em]]; rewrite Em in H; lia.
 Qed.
 
-Global Opaque hash_u64 handle_from_u64 handle_from_u32 handle_of_bytes.
+Lemma handle_add_lt a b : a < two32 -> b < two32 -> handle_add a b < two32.
+Proof. intros Ha Hb. unfold handle_add. apply non_zero_lt, lxor_lt32; assumption. Qed.
+(* 3f22e7c: handles are never 0 *)
+Lemma handle_of_bytes_neq bs : handle_of_bytes bs <> 0.
+Proof. apply non_zero_neq. Qed.
+Lemma hash_u64_neq k m : hash_u64 k m <> 0.
+Proof. unfold hash_u64. apply non_zero_neq. Qed.
+Lemma handle_add_neq a b : handle_add a b <> 0.
+Proof. apply non_zero_neq. Qed.
+Lemma handle_from_u64_neq k : handle_from_u64 k <> 0.
+Proof. unfold handle_from_u64. apply hash_u64_neq. Qed.
+Lemma handle_from_u32_neq k : handle_from_u32 k <> 0.
+Proof. unfold handle_from_u32. apply hash_u64_neq. Qed.
+
+Global Opaque hash_u64 handle_from_u64 handle_from_u32 handle_of_bytes handle_add.
 
 Lemma u32_to_i32_range n : (- 2147483648 <= u32_to_i32 n < 2147483648)%Z.
 Proof.
@@ -136,8 +154,7 @@ Lemma frame2_validate n : frame2 (validate_var_name n).
 Proof. unfold validate_var_name. destruct (is_empty n); [apply frame2_error | apply frame2_ret]. Qed.
 Lemma frame2_handle_from_bytes bs : frame2 (handle_from_bytes_m bs).
 Proof.
-  intros s. unfold handle_from_bytes_m.
-  destruct ((handle_of_bytes bs =? 0) && cs_debug s); cbn; [exact I | same2_tac].
+  intros s. unfold handle_from_bytes_m. same2_tac.
 Qed.
 Lemma frame2_label_insert h : frame2 (label_insert_here h).
 Proof.
@@ -156,14 +173,13 @@ Lemma sp2_get_pc_i32 : sp2 get_pc_i32 (fun z => (- 2147483648 <= z < 2147483648)
 Proof. intros s HI. cbn. split; auto. apply u32_to_i32_range. Qed.
 Lemma sp2_handle_from_bytes bs : sp2 (handle_from_bytes_m bs) fits32.
 Proof.
-  intros s HI. unfold handle_from_bytes_m.
-  destruct ((handle_of_bytes bs =? 0) && cs_debug s); cbn; auto. split; auto. apply handle_of_bytes_lt.
+  intros s HI. unfold handle_from_bytes_m. split; auto. apply handle_of_bytes_lt.
 Qed.
 Lemma sp2_index_handle : sp2 index_handle fits32.
 Proof.
   unfold index_handle. eapply sp2_bind; [apply sp2_get | intros s HIs].
   eapply sp2_bind; [apply sp2_handle_from_bytes | intros sub Hs].
-  apply sp2_ret. unfold fits32 in *. apply lxor_lt32; [apply (i2_fh _ HIs) | exact Hs].
+  apply sp2_ret. unfold fits32 in *. apply handle_add_lt; [apply (i2_fh _ HIs) | exact Hs].
 Qed.
 Lemma sp2_card_label : sp2 card_label (fun _ => True).
 Proof.
@@ -637,7 +653,7 @@ Proof.
     eapply sp2_bind; [step2 | intros _ _].
     eapply sp2_bind.
     { apply sp2_push_instr. cbn [instr_ok instr_op instr_args op_widths].
-      constructor; [apply fits4, lxor_lt32; [exact Hh | apply handle_from_u64_lt]|].
+      constructor; [apply fits4, handle_add_lt; [exact Hh | apply handle_from_u64_lt]|].
       constructor; [apply fits4, N.mod_lt; discriminate | constructor]. }
     intros _ _. eapply sp2_bind; [apply sp2_get | intros s HIs].
     eapply sp2_bind; [|intros _ _; step2].
